@@ -566,3 +566,29 @@ def counted_event(fl, event_edges, ok_blocks):
     if not all(cfg.edges_guard(z_e, ob) for ob in ok_blocks):
         return False, 'a success return is reachable without the count having been found zero'
     return True, 'count behind the event, tested against zero before every success return'
+
+
+WHOLE_ITER = ('iter', 'into_iter', 'by_ref', 'enumerate', 'keys', 'into_keys', 'iter_mut', 'deref', 'as_slice', 'as_ref', 'borrow')
+
+
+def iterated_collection(fl, next_bb):
+    """origins of the collection an `Iterator::next` call walks, through adaptors that keep every element
+    (`for x in v`, `v.iter()`, `(&v).into_iter()`, `.enumerate()`, `.keys()`); other adaptors are returned as they are"""
+    b = fl.body
+    out, work, seen = set(), [b.blocks[next_bb]['term']['args'][0]], set()
+    for _ in range(10):
+        nxt = []
+        for op in work:
+            for o in fl.origins(op):
+                k = (o.kind, o.key, o.bb, tuple(o.path))
+                if k in seen:
+                    continue
+                seen.add(k)
+                if o.kind == 'call' and str(o.key).split('::')[-1] in WHOLE_ITER and o.bb is not None:
+                    nxt.append(b.blocks[o.bb]['term']['args'][0])
+                else:
+                    out.add(o)
+        work = nxt
+        if not work:
+            break
+    return out
